@@ -426,7 +426,13 @@ def exc_annotations(repo, tier="quick"):
         n, entry = found
         ok, why = arm_always_raises(fi, n, "T", {"SyntaxError"})
         e = elem_of(entry)
-        per_entry = bool(e and e[0] == "elem" and method_call(strip_wrappers(e[1]), "split"))
+        per_entry = False
+        if e and e[0] == "elem":
+            # the collection is the split text (on some paths possibly an empty literal: nothing to test)
+            alts = fl.alternatives(strip_wrappers(e[1])) or []
+            splits_ = [a for a in alts if method_call(strip_wrappers(a), "split")]
+            empties = [a for a in alts if a in (("list", ()), ("tuple", ()))]
+            per_entry = bool(splits_) and len(splits_) + len(empties) == len(alts)
         # precedes the split of that entry
         splits = [nid for call, nid in fl.calls() if method_call(fl.canon(call, nid), "split") and method_call(fl.canon(call, nid), "split")[0] == entry]
         before = all(cfg.dominates(n.id, s) for s in splits) if splits else True
